@@ -120,7 +120,12 @@ extern "C" void harness() {
   float cong[NR]; Rectangle reg[NR];
   for (int r = 0; r < NR; ++r) {
     int a = __verif_nondet_int(-20, 120); int b = __verif_nondet_int(-20, 120); int d = __verif_nondet_int(-20, 60); int e = __verif_nondet_int(-20, 60);
+#ifdef CONGCHOICES
+    static const float GV[3] = {0.75f, 1.5f, 2.25f};      // concrete congestion values (uncongested, congested, more congested):
+    float g = GV[__verif_choice(CONGCHOICES)];            // the geometry (which regions a cell meets) stays symbolic
+#else
     float g = __verif_nondet_float(0.0f, 8.0f);
+#endif
     reg[r] = Rectangle(a, b, d, e); cong[r] = g; cmap.push_back(std::make_pair(reg[r], g));
   }
   float fixedPenalty = 0.25f, penaltyFactor = 2.0f;
